@@ -19,10 +19,8 @@ import (
 const (
 	// default anchors for regex expressions embedded in command match attributes
 	// stored as bytes and strs for matching and concatenation
-	regexStartByte = '^'
-	regexEndByte   = '$'
-	regexStartStr  = "^"
-	regexEndStr    = "$"
+	regexStartStr = "^"
+	regexEndStr   = "$"
 )
 
 // NewCommandBasedAuthorizer will return a CommandBasedAuthorizer authorizer. If initial request params
@@ -107,13 +105,15 @@ func (a CommandBasedAuthorizer) evaluate() bool {
 			if len(regexish) == 0 {
 				continue
 			}
-			// guard against regexes that are not anchored to the start and end of the string
-			if regexish[0] != regexStartByte {
-				regexish = regexStartStr + regexish
+			// guard against regexes that are not anchored to the start and end of the string.
+			// the expression must be valid on its own; it is then grouped as a whole so the
+			// anchors bind every branch of an alternation and cannot be confused with an
+			// escaped trailing '$'
+			if _, err := regexp.Compile(regexish); err != nil {
+				a.Errorf(a.ctx, "bad regex detected; %v", err)
+				return false
 			}
-			if regexish[len(regexish)-1] != regexEndByte {
-				regexish = regexish + regexEndStr
-			}
+			regexish = regexStartStr + "(?:" + regexish + ")" + regexEndStr
 			if matched, err := regexp.MatchString(regexish, a.body.Args.CommandArgsNoLE()); err != nil {
 				a.Errorf(a.ctx, "bad regex detected; %v", err)
 				return false
